@@ -13,6 +13,7 @@ import (
 	"net/http"
 	"net/textproto"
 	"strings"
+	"time"
 )
 
 // ClientConnection represents a client to the socketace server. It announces the client to the server,
@@ -40,6 +41,12 @@ func NewClientConnection(c net.Conn, manager cert.TlsConfig, secure bool, host s
 		connection.securityTech = SecurityUnderlying
 	} else {
 		connection.securityTech = SecurityNone
+	}
+
+	// A peer that never answers must not hold the caller (and the upstream lock) for ever
+	if HandshakeTimeout > 0 {
+		_ = c.SetDeadline(time.Now().Add(HandshakeTimeout))
+		defer func() { _ = c.SetDeadline(time.Time{}) }()
 	}
 
 	log.Debugf("[Client] SocketAce handshake...")
